@@ -15,6 +15,9 @@ pub struct Variant {
     pub reexport: bool,
     pub double_export: bool,
     pub two_imports: bool,
+    /// a second import with the *same* module/field names as `a` but another signature:
+    /// 0 = none, 1 = placed before `a`, 2 = placed after `a`
+    pub dup_names: u8,
 }
 
 #[derive(Clone, Copy, Debug, PartialEq, Eq)]
@@ -50,9 +53,15 @@ fn wat(v: &Variant, replaced: Option<(Target, usize, usize)>) -> String {
     let rep_b = matches!(replaced, Some((Target::ImportB, _, _)));
     let rep_s = matches!(replaced, Some((Target::ImportS, _, _)));
     let rb = replaced.map(|r| r.1).unwrap_or(0);
-    let mut s = String::from("(module\n  (type $t (func (param i32) (result i32)))\n  (type $v (func))\n");
+    let mut s = String::from("(module\n  (type $t (func (param i32) (result i32)))\n  (type $v (func))\n  (type $t64 (func (param i64) (result i64)))\n");
+    if v.dup_names == 1 {
+        s += "  (import \"env\" \"a\" (func $dup (type $t64)))\n";
+    }
     if !rep_a {
         s += "  (import \"env\" \"a\" (func $a (type $t)))\n";
+    }
+    if v.dup_names == 2 {
+        s += "  (import \"env\" \"a\" (func $dup (type $t64)))\n";
     }
     if v.two_imports && !rep_b {
         s += "  (import \"env\" \"b\" (func $b (type $t)))\n";
@@ -80,6 +89,9 @@ fn wat(v: &Variant, replaced: Option<(Target, usize, usize)>) -> String {
     }
     s += "  (func (export \"indirect\") (param i32 i32) (result i32) (call_indirect (type $t) (local.get 1) (i32.and (local.get 0) (i32.const 3))))\n";
     s += "  (func (export \"inner\") (param i32) (result i32) (call $loc (local.get 0)))\n";
+    if v.dup_names != 0 {
+        s += "  (func (export \"direct_dup\") (param i64) (result i64) (call $dup (local.get 0)))\n";
+    }
     s += "  (func (export \"getg\") (result i32) (global.get $g))\n";
     // exports of $loc: possibly retargeted
     let (l1, l2) = match replaced {
@@ -114,7 +126,17 @@ fn edit(orig: &[u8], v: &Variant, target: Target, body: usize) -> Result<Vec<u8>
     let mut m = parse(orig, &Cfg::default())?;
     let r = std::panic::catch_unwind(std::panic::AssertUnwindSafe(|| -> Result<Vec<u8>, String> {
         let g = m.globals.iter().next().map(|g| g.id()).ok_or("no global")?;
-        let fa = m.imports.get_func("env", "a").map_err(|e| e.to_string())?;
+        // the import `env.a` of type (i32)->i32 (a second import may share its names)
+        let fa = m
+            .imports
+            .iter()
+            .filter(|i| i.module == "env" && i.name == "a")
+            .filter_map(|i| match i.kind {
+                ImportKind::Function(f) => Some(f),
+                _ => None,
+            })
+            .find(|f| m.types.get(m.funcs.get(*f).ty()).params() == [ValType::I32])
+            .ok_or("no import env.a")?;
         let fb = m.imports.get_func("env", "b").ok();
         let floc = m.exports.get_func("loc").map_err(|e| e.to_string())?;
         match target {
@@ -209,7 +231,7 @@ pub fn plan_one(v: &Variant, t: Target, body: usize) -> Result<Planned, String> 
     if t == Target::ExportLoc && v.double_export {
         expected.push(assemble(&wat(v, Some((t, body, 1))))?);
     }
-    let cfg = json!({"with_start": v.with_start, "reexport": v.reexport, "double_export": v.double_export, "two_imports": v.two_imports, "target": format!("{:?}", t), "body": body});
+    let cfg = json!({"with_start": v.with_start, "reexport": v.reexport, "double_export": v.double_export, "two_imports": v.two_imports, "dup_names": v.dup_names, "target": format!("{:?}", t), "body": body});
     Ok(Planned {
         case: Case { family: "replace".into(), coords: format!("{:?} {:?} body={}", v, t, BODIES[body]), wasm: orig.clone(), cfg },
         orig,
@@ -222,8 +244,8 @@ pub fn plan_one(v: &Variant, t: Target, body: usize) -> Result<Planned, String> 
 
 pub fn plan() -> Vec<Planned> {
     let mut out = vec![];
-    for bits in 0..16u32 {
-        let v = Variant { with_start: bits & 1 != 0, reexport: bits & 2 != 0, double_export: bits & 4 != 0, two_imports: bits & 8 != 0 };
+    for bits in 0..48u32 {
+        let v = Variant { with_start: bits & 1 != 0, reexport: bits & 2 != 0, double_export: bits & 4 != 0, two_imports: bits & 8 != 0, dup_names: (bits / 16) as u8 };
         let mut targets = vec![Target::ImportA, Target::ExportLoc];
         if v.two_imports {
             targets.push(Target::ImportB);
@@ -289,6 +311,7 @@ fn replan(c: &Case) -> Option<Planned> {
         reexport: c.cfg["reexport"].as_bool()?,
         double_export: c.cfg["double_export"].as_bool()?,
         two_imports: c.cfg["two_imports"].as_bool()?,
+        dup_names: c.cfg["dup_names"].as_u64().unwrap_or(0) as u8,
     };
     plan_one(&v, target_of(c.cfg["target"].as_str()?), c.cfg["body"].as_u64()? as usize).ok()
 }
@@ -394,14 +417,14 @@ pub fn run(args: &Args) -> i32 {
     ev.sample(json!({"case": planned[0].case.coords, "original_wat": wat(&planned[0].variant, None)}));
     ev.sample(json!({"case": planned[planned.len() - 1].case.coords}));
     ev.rule = format!(
-        "all 16 module variants (start route, re-export, two exports of one function, one or two imports; every import also reached by direct call and through an element segment + call_indirect) x \
+        "all 48 module variants (start route, re-export, two exports of one function, one or two imports, a second import sharing the replaced import's module/field names placed before or after it; every import also reached by direct call and through an element segment + call_indirect) x \
          every imported / exported function x 5 replacement bodies = {} edits performed with replace_imported_func / replace_exported_func on the real Module. The expected module is written independently \
          as WAT with the replacement spliced in by name; the edited module must validate, be isomorphic to it (iso, RoundTrip) and behave identically in V8 (BFS over call sequences, depth {}). \
          non-trivial = edits whose behavioural comparison ran and agreed",
         planned.len(),
         depth
     );
-    ev.bounds = json!({"variants": 16, "bodies": 5, "call_depth": depth});
+    ev.bounds = json!({"variants": 48, "bodies": 5, "call_depth": depth});
     ev.assumptions = vec!["for a function exported twice, retargeting either export (exactly one) is accepted".into()];
     finish(args, ev, viol, &|c| recheck(args, c))
 }
